@@ -2,6 +2,6 @@
 # the repository's own test suite, hooks guard OFF (no hooks exist; nothing is defined)
 set -e
 cd /repo
-[ -f _build/build.ninja ] || cmake -G Ninja -B _build >/dev/null
+[ -f _build/build.ninja ] || cmake -G Ninja -B _build -S . -DGLM_BUILD_TESTS=ON -DCMAKE_BUILD_TYPE=RelWithDebInfo -DCMAKE_CXX_FLAGS=-Wno-error >/dev/null
 cmake --build _build -j16 >/dev/null
 ctest --test-dir _build -j8 --timeout 900
